@@ -29,6 +29,7 @@ func init() {
 			{"C12.R9", "q", "size correction taken while the record is still compressed", c12r9},
 			{"C12.R10", "q", "counter and allocation primitives are symmetric", c12r10},
 			{"C12.R6", "q", "event discovery: every event inside a contracted function", c12r6},
+			{"C09.R8", "q", "shared: capacity written only by the allocator; copies exact", c09r8},
 		},
 	})
 }
